@@ -5,7 +5,7 @@
 
   How the dimensions of the property's quantifier are covered:
   * histories, channel counts (0..255), initial device state, the four flag combinations: universally quantified in
-    every theorem (`ops`, `d0` with `WFDev`, `flags`).
+    every theorem (`ops`, `d0` with `WFDev`, `flags` — any natural number; only the divider and ACK bits are read).
   * every rx padding: `padding_invisible`, `write_syncs_padded`, `padded_request_same` — the device stands behind its
     request dispatcher and receives every write aligned to an arbitrary padding (`Config.runP`, `Config.devReact`);
     composition of C17 `aligned_same` with the dispatcher, the callback table and the C05 decoders.
@@ -15,7 +15,13 @@
     first; C09 `connect_stops_stream` is the same fact at the level of C09's histories).  From there on the device does
     not stream unless the client starts it.  Stream frames that arrive *during* the exchange (stream started by the
     client) travel to a separate queue in the receive thread and are outside the model: that dimension is covered by
-    K/O only (mode letters `s`, `r` of the `cfgx run` cases: a stream frame between every set request and its ACK).
+    K/O only (mode letters `s`, `r`, `u` of the `cfgx run` cases: `s` stream frames in the pipe at connect time and one
+    emitted while the stop request is processed, `r` a stream frame between every set request and its ACK, `u` the stream
+    started at CommHandler level and > 64 frames unread before the first call).
+  * NOT in any theorem, K/O only (mode extras of the `cfgx run` cases, harness/c07lib.py): a connect on a handler object
+    that has already been through a session (`/R…`: `connect_gives_init` speaks of a FRESH world; the check compares the
+    second session with `Client.init` of the device state at the second connect), channel type bytes (`/T…`: the model's
+    `Device` has no types — UNDEF / critical channels are configured like any other), reserved bits of the flags byte.
   * the public wrappers `NxscopeHandler.ch_enable(chans, writenow=False)` …: `Config.Call` / `runCalls` — a setter
     followed, if `writenow` and the setter did not raise, by a write (`calls_silent`, `writenow_syncs`,
     `write_syncs_calls`, `reported_matches_device_calls`); that the wrappers are those two statements with the default
@@ -27,6 +33,7 @@ import NxsModel.Gen.CfgShape
 import NxsModel.Config
 import NxsModel.ConfigExt
 import NxsModel.Lifecycle
+import NxsModel.Lemmas.Lifecycle
 import NxsModel.Lemmas.Config
 import NxsModel.Lemmas.ConfigExt
 namespace Nxs.C07
@@ -74,7 +81,13 @@ theorem setters_silent (c : Client) (d : Device) (op : Op) (h : isWrite op = fal
 
 /-- once a write has returned, the device's enable (and, with divider support, divider) state
     equals the state requested so far and equals what the client reports (`ch_is_enabled`,
-    `ch_div_get`, and its copy of the device description) -/
+    `ch_div_get`, and its copy of the device description).
+    NOTE on "the state requested so far": here it is the model's own buffered vector `enNew` / `divNew` (the transcription
+    of `DCommChannelsData.en_new` / `div_new`), i.e. the theorem says device = buffer = reported.  That the buffer is the
+    fold of the setter calls over the initial device state follows from the definitions of `step` on the non-write ops
+    (each is the documented one-line effect on the vector, see `setters_silent` and `Config.step`), but there is no
+    separate Lean statement with an independently defined fold; the independent fold is the oracle's (`emulate_setter`
+    in harness/props/C07.py), which judges the real code on every line of the check. -/
 theorem write_syncs (d0 : Device) (flags : Nat) (ops : List Op) (hd : WFDev d0) (ha : AllAck ops) :
     let r := after d0 flags (ops ++ [.write .ack .ack])
     r.2.1.en = r.1.enNew ∧ r.1.enNow = r.1.enNew ∧ r.1.copyEn = r.1.enNew ∧
@@ -180,12 +193,16 @@ theorem write_syncs_padded (pad : Nat) (d0 : Device) (flags : Nat) (ops : List O
 
 /-- "stream already running at connect time": a connect on a fresh handler in front of device `d0` — idle or left
     streaming by a previous session — yields exactly the state the C07 histories start from: the client initialised
-    from `d0`, the device's channel configuration untouched, its stream stopped -/
+    from `d0`, the device's channel configuration untouched, its stream stopped.
+    NOTE: this is DEFINITIONAL (`⟨rfl, rfl, rfl⟩`): it unfolds the model's `connect` step (`Lifecycle.run`), whose tie to
+    the code is the source pins + K, and it covers a FRESH handler only (`World.fresh`).  It says nothing about a connect
+    after an earlier session on the same handler object, nor about stream frames present in the pipe at connect time:
+    both are covered by K/O only (`/R…` reconnect lines — second session compared with `Client.init` of the device state
+    at that moment — and mode `s` of the `cfgx run` cases). -/
 theorem connect_gives_init (d0 : Device) (started : Bool) (flags : Nat) :
     let w := (Lifecycle.run (Lifecycle.World.fresh d0 started flags) [.connect]).1
-    w.cli = some (Client.init d0 flags) ∧ w.dev = d0 ∧ w.devStarted = false := by
-  intro w
-  exact ⟨rfl, rfl, rfl⟩
+    w.cli = some (Client.init d0 flags) ∧ w.dev = d0 ∧ w.devStarted = false :=
+  Lifecycle.c07_connect_gives_init d0 started flags
 
 /-- ids ≥ 0 mean in a call what they mean in `Config.Op` (so everything above is the special case of the call
     theorems below with non-negative ids, no `writenow`, padding 0) -/
